@@ -7,6 +7,7 @@ import (
 	"io"
 	"math/rand/v2"
 	"sync"
+	"time"
 
 	"github.com/apache/thrift/lib/go/thrift"
 	"verif/simrt"
@@ -50,6 +51,8 @@ type SimStream struct {
 	OpenFault  func(i int) error
 	CloseFault func(i int) error
 	WriteFault func(i int, p []byte) (err error, block bool)
+	// WriteDelay: simulated time this Write takes before it succeeds (a congested socket)
+	WriteDelay func(p []byte) time.Duration
 	FlushFault func(i int) (err error, block bool)
 	ReadFault  func(i int) error // checked on every Read call before data
 
@@ -252,6 +255,13 @@ func (st *SimStream) Write(p []byte) (int, error) {
 		}
 		if err != nil {
 			return 0, err
+		}
+	}
+	if wd := st.WriteDelay; wd != nil {
+		if d := wd(p); d > 0 {
+			simrt.Block(st.siteBlocked)
+			time.Sleep(d)
+			simrt.Yield(st.siteBlocked)
 		}
 	}
 	st.mu.Lock()
